@@ -336,22 +336,28 @@ static var msg_arg(var outer, int slot) {
 static int pct_mode = 4;
 static var PCT_S, PCT_V;
 static int pct_sel(int slot) { return pct_mode == 4 ? ((slot / 4 + slot) & 3) : pct_mode; }
-#define THROW_AT(OBJ, TAG, SLOT, K) do { var o_ = (OBJ); \
-  switch (pct_sel(SLOT)) { \
-    case 1: throw(o_, TAG " 100%% sure, slot %i %$", $I(SLOT), msg_arg(o_, (K))); break; \
-    case 2: throw(o_, TAG " %s, slot %i %$", PCT_S, $I(SLOT), msg_arg(o_, (K))); break; \
-    case 3: throw(o_, TAG " %$, slot %i %$", PCT_V, $I(SLOT), msg_arg(o_, (K))); break; \
-    default: throw(o_, TAG " from slot %i %$", $I(SLOT), msg_arg(o_, (K))); break; \
-  } } while (0)
+static var TAGS[4];     /* Strings "-", "A", "B", "C" */
+/* the variants with '%' live in a function of their own: every throw written into the big templates costs
+** several compound literals there, and under ASan the frame of a template function must stay small
+** (a longjmp out of a frame of several hundred KB makes the run-time remap its shadow every time) */
+static __attribute__((noinline)) void throw_variant(var o_, int v_, int tag, int slot, int k) {
+  switch (v_) {
+    case 1: throw(o_, "%s 100%% sure, slot %i %$", TAGS[tag], $I(slot), msg_arg(o_, k)); break;
+    case 2: throw(o_, "%s %s, slot %i %$", TAGS[tag], PCT_S, $I(slot), msg_arg(o_, k)); break;
+    default: throw(o_, "%s %$, slot %i %$", TAGS[tag], PCT_V, $I(slot), msg_arg(o_, k)); break;
+  }
+}
+/* one lexical throw (plain text) per site; the other texts through throw_variant */
+#define THROW_AT(OBJ, TAGI, SLOT, K) do { var o_ = (OBJ); int v_ = pct_sel(SLOT); \
+  if (v_ == 0) throw(o_, "%s from slot %i %$", TAGS[TAGI], $I(SLOT), msg_arg(o_, (K))); \
+  else throw_variant(o_, v_, (TAGI), (SLOT), (K)); } while (0)
 
-static void plain_thrower(void) { THROW_AT(TB, "B from a plain function", 1, 1); }
+static void plain_thrower(void) { THROW_AT(TB, 2, 1, 1); }
 
 /* one statement slot; the throw is written lexically at the slot */
 #define STMT(SLOT, CODE) do { const int c_ = (CODE); ev_add('S', (SLOT), c_); \
   switch (c_) { \
-    case 1: THROW_AT(TA, "A", (SLOT), (SLOT)); break; \
-    case 2: THROW_AT(TB, "B", (SLOT), (SLOT) + 1); break; \
-    case 3: THROW_AT(TC, "C", (SLOT), (SLOT) + 2); break; \
+    case 1: case 2: case 3: THROW_AT(TH[c_].obj, c_, (SLOT), (SLOT) + c_ - 1); break; \
     case 4: case 5: case 6: case 7: fn1(KBASE + c_ - 4); break; \
     case 8: plain_thrower(); break; \
     default: break; \
@@ -979,13 +985,13 @@ static void deep_rec(int level);
   { int d_ = (int)len(EXC); if (d_ != level + 1) deep_bad('b', level, d_); } \
   if (level == DC.D - 1) { \
     DS.bottom_reached = 1; DS.bottom_depth = (int)len(EXC); \
-    THROW_AT(deep_thrown(DC.x), "thrown at the bottom", DC.D + DC.x, DC.D); \
+    THROW_AT(deep_thrown(DC.x), DC.x, DC.D + DC.x, DC.D); \
   } else { deep_rec(level + 1); }
 
 #define DEEP_HAND \
   if (DS.nh < 8) { DS.h[DS.nh].level = level; DS.h[DS.nh].obj = objid(e_); DS.h[DS.nh].depth = (int)len(EXC); } \
   DS.nh++; \
-  if (level == DC.T1 && DC.rt) { THROW_AT(deep_thrown(3 - DC.x), "thrown by a handler", level + DC.x + 1, level + 1); }
+  if (level == DC.T1 && DC.rt) { THROW_AT(deep_thrown(3 - DC.x), 3 - DC.x, level + DC.x + 1, level + 1); }
 
 /* one level: the parameter is never modified, so it may be read after the longjmp */
 static void deep_rec(int level) {
@@ -1202,6 +1208,7 @@ int main(int argc, char** argv) {
     const char* pm = vf_param("pct", "mix");
     pct_mode = strcmp(pm, "mix") == 0 ? 4 : (int)strtol(pm, NULL, 10);
     if (pct_mode < 0 || pct_mode > 4) { fprintf(stderr, "pct must be 0..3 or mix\n"); return 2; }
+    TAGS[0] = new_raw(String, $S("-")); TAGS[1] = new_raw(String, $S("A")); TAGS[2] = new_raw(String, $S("B")); TAGS[3] = new_raw(String, $S("C"));
     PCT_S = new_raw(String, $S("50% off"));
     PCT_V = new_raw(String, $S("rate %d of %s is 5%"));
     vf_extra("message_text", "\"%s\"", pm);
